@@ -3,6 +3,7 @@ import layout
 from mirlite import ty_str, callee, op_place
 from flow import Tracer
 
+LEVEL = "translation_validation"
 EXPLANATION = (
     "Translation-validation style static comparison. The layout of every shipped packet/TLV "
     "struct is *extracted from the type-checked program* (generic arguments <FieldTy, L, E, TE> "
@@ -145,6 +146,7 @@ def run(ctx, chk):
                         "%02X %02X" % tuple(cf), have[1] if have else None)
     for sname in sorted(set(impls) - set(spec)):
         chk.note("struct %s has a codec impl but no entry in spec/layout.json (not checked)" % sname)
+    chk.coverage_extra["programs"] = len([s for s in spec if s in impls])
     chk.floor("structs compared", len([s for s in spec if s in impls]), 55)
     chk.floor("layout rows compared (encoder)", n_rows, 162)
     chk.floor("commands", len([s for s in spec if spec[s]["control_field"]]), 31)
